@@ -140,6 +140,15 @@ def crafted_cases():
     for accel in (False, True):
         p = pack_problem(np.diag([-2.0, 2.0]), [-1.0, 3.0], 0.0, "zero", 1.0, Z2, 1.0, False, "abb-orthogonal-after-memory")
         out.append({**p, "policy": {"kind": "abb", "kappa": 0.5}, "accel": accel, "steps": 5})
+    # fall-back followed by usable steps: curvature of mixed sign, real and complex, PGM and accelerated PGM
+    for kind in ("bb", "abb"):
+        for accel in (False, True):
+            for cplx in (False, True):
+                Qm = np.diag([3.0, -1.0]).astype(complex if cplx else float)
+                bb_ = np.array([1.0 + 0.5j, -2.0 + 1j]) if cplx else np.array([1.0, -2.0])
+                x0_ = np.array([0.5 - 1j, 0.25 + 0j]) if cplx else np.array([0.5, 0.25])
+                p = pack_problem(Qm, bb_, 0.0, "zero", 1.0, x0_, 4.0, cplx, "fallback-then-usable")
+                out.append({**p, "policy": {"kind": kind, "kappa": 0.5} if kind == "abb" else {"kind": kind}, "accel": accel, "steps": 9})
     # line search: budget exhausted (curvature 64 from L0 = 1 with gamma 2 needs 7 trials)
     for kind in ("ls", "rls"):
         for accel in (False, True):
@@ -279,6 +288,7 @@ def run_real(case):
     kind = case["policy"]["kind"]
     recs = []
     cur = {}
+    shadow = {"prev": None}
 
     orig_update = pol.update
     orig_fq = s.f_quad_approx
@@ -299,11 +309,15 @@ def run_real(case):
             cur["point"] = "?"
         cur["arg"] = realview(v, cplx)
         if kind in ("bb", "abb"):
-            cur["first"] = pol.xprev is None
-            if pol.xprev is not None:
-                dx = v - pol.xprev
-                gv = s.f.grad(v)
-                dg = gv - pol.gradprev
+            # the documented memory is kept by the harness itself (argument and gradient of the previous *call*),
+            # never read back from the policy object: Δx = x_k - x_{k-1}, Δg = ∇f(x_k) - ∇f(x_{k-1})
+            gv = s.f.grad(v)
+            cur["first"] = shadow["prev"] is None
+            cur["policy_first"] = pol.xprev is None
+            if shadow["prev"] is not None:
+                xp, gp = shadow["prev"]
+                dx = v - xp
+                dg = gv - gp
                 cur["ips"] = (
                     _fl(snp.real(snp.sum(dx.conj() * dx))),
                     _fl(snp.real(snp.sum(dx.conj() * dg))),
@@ -315,6 +329,15 @@ def run_real(case):
                     None if pol.Lbb1prev is None else _fl(pol.Lbb1prev),
                     None if pol.Lbb2prev is None else _fl(pol.Lbb2prev),
                 )
+            out = orig_update(v)
+            # what the policy remembers after the call must be (v, ∇f(v))
+            cur["stored_ok"] = bool(
+                pol.xprev is not None
+                and np.array_equal(np.asarray(pol.xprev), np.asarray(v))
+                and np.allclose(np.asarray(pol.gradprev), np.asarray(gv), rtol=1e-12, atol=0, equal_nan=True)
+            )
+            shadow["prev"] = (v, gv)
+            return out
         return orig_update(v)
 
     pol.update = upd_wrap
